@@ -126,6 +126,11 @@ func main() {
 		}
 		fr := verifyFunc(prog, fi, con)
 		rep.Funcs = append(rep.Funcs, fr)
+		if fr.Status == "stale" {
+			// contract clauses no longer resolve against the code: the obligations are meaningless, do not solve them
+			fr.obls = nil
+			continue
+		}
 		rep.Obls = append(rep.Obls, fr.obls...)
 	}
 	for k, c := range cs.Funcs {
